@@ -5011,3 +5011,102 @@ func ruleSumOverSet(c *Ctx) {
 	}
 	c.Floor("appends to slices that are summed over", n, 2)
 }
+
+// ---------------------------------------------------------------------------
+// continuation-fresh-index (C01) - natives that call out to contracts (Deferrable methods) finish their work in a
+// continuation that runs after the callee returned - and the callee can re-enter the native. A position in a cache
+// slice that was computed *before* the continuation was created (a binary search over the sorted list of blocked
+// accounts) is stale by then: inserting at it leaves the cached list unsorted, the next binary search misses an
+// entry that storage has, and a restarted node - which rebuilds the list from storage in key order - answers
+// differently. A function literal in package native must not use a captured integer as index or bound of a slice
+// that is a field of a native cache.
+func ruleContinuationFreshIndex(c *Ctx) {
+	pk := c.P.Pkg("pkg/core/native")
+	if pk == nil {
+		c.Lost("continuation-fresh-index.anchor", "package native not found")
+		return
+	}
+	info := pk.TypesInfo
+	isCacheField := func(e ast.Expr) bool {
+		sel, ok := ast.Unparen(e).(*ast.SelectorExpr)
+		if !ok {
+			return false
+		}
+		t := info.TypeOf(sel.X)
+		if t == nil {
+			return false
+		}
+		if p, ok := t.(*types.Pointer); ok {
+			t = p.Elem()
+		}
+		nt, ok := t.(*types.Named)
+		return ok && strings.HasSuffix(nt.Obj().Name(), "Cache") && nt.Obj().Pkg() == pk.Types
+	}
+	nLit, nUse := 0, 0
+	for _, fd := range c.P.AllFuncDecls() {
+		if fd.Pkg != pk || fd.Decl.Body == nil {
+			continue
+		}
+		k := 0
+		ast.Inspect(fd.Decl.Body, func(x ast.Node) bool {
+			lit, ok := x.(*ast.FuncLit)
+			if !ok {
+				return true
+			}
+			nLit++
+			captured := func(id *ast.Ident) bool {
+				v, ok := info.ObjectOf(id).(*types.Var)
+				if !ok || v.IsField() {
+					return false
+				}
+				if b, ok := v.Type().Underlying().(*types.Basic); !ok || b.Info()&types.IsInteger == 0 {
+					return false
+				}
+				return v.Pos() < lit.Pos() && v.Pos() > fd.Decl.Pos() // declared in the enclosing function, before the literal
+			}
+			ast.Inspect(lit.Body, func(y ast.Node) bool {
+				var idxs []ast.Expr
+				var base ast.Expr
+				switch e := y.(type) {
+				case *ast.IndexExpr:
+					base, idxs = e.X, []ast.Expr{e.Index}
+				case *ast.SliceExpr:
+					base, idxs = e.X, []ast.Expr{e.Low, e.High}
+				default:
+					return true
+				}
+				if !isCacheField(base) {
+					return true
+				}
+				nUse++
+				for _, ix := range idxs {
+					if ix == nil {
+						continue
+					}
+					bad := ""
+					ast.Inspect(ix, func(z ast.Node) bool {
+						if id, ok := z.(*ast.Ident); ok && captured(id) {
+							bad = id.Name
+						}
+						return true
+					})
+					if bad != "" {
+						k++
+						c.Fail(fmt.Sprintf("continuation-fresh-index.%s#%d", FuncKey(fd.Obj), k), c.P.Pos(y.Pos()), fmt.Sprintf("a function literal in %s indexes the cache slice %s with %s, which was computed in the enclosing function before the literal was created: if the literal runs as a continuation after a contract call (which can re-enter the native and change the slice), the position is stale - the cached list gets out of order and disagrees with what a restarted node rebuilds from storage", FuncKey(fd.Obj), types.ExprString(base), bad))
+					}
+				}
+				return true
+			})
+			return true
+		})
+		if k == 0 {
+			continue
+		}
+	}
+	if nUse > 0 {
+		c.OK("continuation-fresh-index.summary", "pkg/core/native", fmt.Sprintf("%d function literals examined; %d index/slice expressions over native cache fields inside them, none with a captured position", nLit, nUse))
+	} else {
+		c.OK("continuation-fresh-index.summary", "pkg/core/native", fmt.Sprintf("%d function literals examined; none indexes a native cache slice", nLit))
+	}
+	c.Floor("function literals in package native", nLit, 40)
+}
